@@ -43,7 +43,15 @@ pub fn check_prefix(ctx: &mut Ctx, m: &[u8], cut: usize) {
         ),
     }
     // the header decoder against the full parser on the same bytes
+    header_vs_parser(ctx, m, cut);
+}
+
+/// "The stand-alone header decoder accepts exactly the 20-byte prefixes the full parser would not
+/// call non-STUN": compared directly between the two entry points, on `m[..cut]`.
+pub fn header_vs_parser(ctx: &mut Ctx, m: &[u8], cut: usize) {
+    let p = &m[..cut];
     if cut >= 20 {
+        ctx.count("header-vs-parser-compared");
         let h = guard(|| MessageHeader::from_bytes(p).is_ok());
         let full_notstun = guard(|| matches!(Message::from_bytes(p), Err(StunParseError::NotStun)));
         if let (Ok(h), Ok(ns)) = (h, full_notstun) {
@@ -137,6 +145,16 @@ pub fn run(ctx: &mut Ctx) {
                 }
                 let rp = ref_parse(&b);
                 check_small_decoders(ctx, &b, &rp, &o);
+                // arbitrary headers (any length field, aligned or not): the two decoders agree on "STUN or not",
+                // on the 20-byte header alone, on the buffer as it is, and padded to its declared length
+                header_vs_parser(ctx, &b, 20);
+                header_vs_parser(ctx, &b, b.len());
+                {
+                    let decl = u16::from_be_bytes([b[2], b[3]]) as usize;
+                    let mut full = b[..20].to_vec();
+                    full.resize(20 + decl, 0);
+                    header_vs_parser(ctx, &full, full.len());
+                }
                 ctx.eval();
                 ctx.count("header-sweep");
                 // short headers
@@ -149,6 +167,7 @@ pub fn run(ctx: &mut Ctx) {
     ctx.require("prefix-truncated-ok", 50_000);
     ctx.require("messages", 500);
     ctx.require("header-sweep", 1_000);
+    ctx.require("header-vs-parser-compared", 10_000);
 }
 
 pub fn replay(ctx: &mut Ctx, w: &Value) -> Result<(), String> {
